@@ -344,28 +344,57 @@ func runC07(c *Ctx) {
 		for _, nd := range need {
 			for _, call := range callsToFn(dec, nd.fn) {
 				in := call.(ssa.Instruction)
-				var last *ssa.Store
-				for _, a := range storesTo(dec, decodeFrameF) {
-					st := a.Instr.(*ssa.Store)
-					if dominatesInstr(st, in) && (last == nil || dominatesInstr(last, st)) {
-						last = st
+				// the last re-slice in front of the accessor: a store in Decode, or the call of a helper that prepares and re-slices
+				var last *deepStore
+				for _, d := range deepStoresTo(dec, decodeFrameF) {
+					d := d
+					if isNil(d.Store.Val) {
+						continue // dropping the frame on the failure path
+					}
+					if dominatesInstr(d.Site, in) && (last == nil || dominatesInstr(last.Site, d.Site)) {
+						last = &d
 					}
 				}
 				good := false
 				got := "nothing"
 				if last != nil {
-					if sl, ok := stripConv(last.Val).(*ssa.Slice); ok && sl.High != nil {
-						got = leafSummary(additiveLeaves(sl.High))
+					if sl, ok := stripConv(last.Store.Val).(*ssa.Slice); ok && sl.High != nil {
+						high := last.translate(sl.High)
+						got = leafSummary(additiveLeaves(high))
 						// prepared for that amount?
 						prepared := false
-						for _, pc := range callsToFn(dec, prepareRead) {
-							if pc.Common().Args[1] == sl.High && guardedNil(last.Block(), pc.(ssa.Value)) {
+						for _, pc := range deepCallsTo(dec, prepareRead) {
+							// the same frame: both in Decode, or both in the same invocation of a helper
+							if pc.Call.Parent() != last.Store.Parent() || (pc.Call.Parent() != dec && pc.Site != last.Site) {
+								continue
+							}
+							if !guardedNil(last.Store.Block(), pc.Call) {
+								continue
+							}
+							amount := pc.translate(pc.Call.Call.Args[1])
+							if amount == high {
 								prepared = true
 							}
-							if k1, ok := constInt(pc.Common().Args[1]); ok {
-								if k2, ok := constInt(sl.High); ok && k1 == k2 && guardedNil(last.Block(), pc.(ssa.Value)) {
+							if k1, ok := constInt(amount); ok {
+								if k2, ok := constInt(high); ok && k1 == k2 {
 									prepared = true
 								}
+							}
+						}
+						// through a helper: the accessor runs only when the helper reported success, and the helper reports
+						// success only after the re-slice
+						if hc, viaHelper := last.Site.(*ssa.Call); viaHelper && ssa.Instruction(hc) != ssa.Instruction(last.Store) {
+							h := last.Store.Parent()
+							okRet := true
+							for _, r := range returnsOf(h) {
+								if len(r.Results) != 1 {
+									okRet = false
+								} else if isNil(r.Results[0]) && !dominatesInstr(last.Store, r) {
+									okRet = false
+								}
+							}
+							if !okRet || hc.Call.StaticCallee() != h || !guardedNil(in.Block(), hc) {
+								prepared = false
 							}
 						}
 						if prepared && (got == nd.want || strings.HasPrefix(got, nd.want+"+")) {
